@@ -6,6 +6,7 @@ package main
 // log / pow (the Lean side decides from the arguments alone whether math answers NaN).
 
 import (
+	"fmt"
 	"math"
 	"strings"
 	"time"
@@ -282,4 +283,15 @@ func c14Durations(ctx *Ctx) {
 		}
 		runGlue(ctx, c)
 	}
+}
+
+// c14ProbeIdx: the index-list law (IdxOK) that C14.regexall_never_panics assumes of every match of
+// FindAllStringSubmatchIndex, probed on the real regexp package.
+func c14ProbeIdx(ctx *Ctx, groups, size int, idx []int, pat, str string) {
+	okIdx := len(idx) == 2*(groups+1) && idx[0] >= 0
+	for j := 0; okIdx && j+1 < len(idx); j += 2 {
+		a, b := idx[j], idx[j+1]
+		okIdx = (a < 0 && b < 0) || (0 <= a && a <= b && b <= size)
+	}
+	ctx.Probe("regexp-findall-submatch-index-shape", okIdx, fmt.Sprintf("FindAllStringSubmatchIndex(%q, %q) has %v", pat, str, idx))
 }
